@@ -29,7 +29,10 @@ ovpn_head = [{'u': 1, 'name': 'opcode<<3|key_id'}, {'u': 8, 'attr': 'session_id'
              {'opt': [{'array': {'u': 4}, 'name': 'acks', 'attr': 'packet_id_array'}, {'u': 8, 'attr': 'remote_session_id'}]}]
 entry('OpenVpnPacketControlV1', 'OpenVPN P_CONTROL_V1: header, packet id(4), TLS payload', ovpn_head + [{'u': 4, 'attr': 'packet_id'}, {'raw': '*', 'attr': 'payload'}])
 entry('OpenVpnPacketAckV1', 'OpenVPN P_ACK_V1: header only', ovpn_head)
-entry('OpenVpnPacketHardResetClientV2', 'OpenVPN P_CONTROL_HARD_RESET_CLIENT_V2: header, packet id(4)', ovpn_head + [{'u': 4, 'attr': 'packet_id'}])
+# the first packet of a session acknowledges nothing: the ack array is empty (the parser refuses anything else) and no remote session id follows
+ovpn_head_first = [ovpn_head[0], ovpn_head[1], ovpn_head[2],
+                   {'opt': [dict(ovpn_head[3]['opt'][0], carried=False), dict(ovpn_head[3]['opt'][1], carried=False)]}]
+entry('OpenVpnPacketHardResetClientV2', 'OpenVPN P_CONTROL_HARD_RESET_CLIENT_V2: header (no acks), packet id(4)', ovpn_head_first + [{'u': 4, 'attr': 'packet_id'}])
 entry('OpenVpnPacketHardResetServerV2', 'OpenVPN P_CONTROL_HARD_RESET_SERVER_V2: header, packet id(4)', ovpn_head + [{'u': 4, 'attr': 'packet_id'}])
 entry('Sync', "PostgreSQL SSLRequest response: single byte 'S'", [{'raw': 1}])
 entry('SslRequest', 'PostgreSQL SSLRequest: Int32(8) length, Int32(80877103) request code', [{'u': 4}, {'u': 4}])
